@@ -65,7 +65,11 @@ fn ekf(e: vfs::VfsError) -> Res {
 }
 
 /// The same calls made directly on the `FileSystem` trait of MemoryFS.
-fn exec_call_fs(fs: &dyn vfs::FileSystem, c: &Call, handle: &mut Option<Box<dyn vfs::SeekAndWrite + Send>>) -> Res {
+fn exec_call_fs(
+    fs: &dyn vfs::FileSystem,
+    c: &Call,
+    handle: &mut Option<Box<dyn vfs::SeekAndWrite + Send>>,
+) -> Res {
     use std::io::{Read, Write};
     match c {
         Call::CreateDir(p) => fs.create_dir(p).map(|_| Res::Unit).unwrap_or_else(ekf),
@@ -102,11 +106,23 @@ fn exec_call_fs(fs: &dyn vfs::FileSystem, c: &Call, handle: &mut Option<Box<dyn 
             }
             None => Res::NoHandle,
         },
-        Call::SetModified(p) => fs.set_modification_time(p, fixed_instant()).map(|_| Res::Unit).unwrap_or_else(ekf),
+        Call::SetModified(p) => fs
+            .set_modification_time(p, fixed_instant())
+            .map(|_| Res::Unit)
+            .unwrap_or_else(ekf),
         Call::RemoveFile(p) => fs.remove_file(p).map(|_| Res::Unit).unwrap_or_else(ekf),
         Call::RemoveDir(p) => fs.remove_dir(p).map(|_| Res::Unit).unwrap_or_else(ekf),
         Call::Exists(p) => fs.exists(p).map(Res::Bool).unwrap_or_else(ekf),
-        Call::Metadata(p) => fs.metadata(p).map(|m| Res::Meta(m.file_type as u8, m.len, m.modified == Some(fixed_instant()))).unwrap_or_else(ekf),
+        Call::Metadata(p) => fs
+            .metadata(p)
+            .map(|m| {
+                Res::Meta(
+                    m.file_type as u8,
+                    m.len,
+                    m.modified == Some(fixed_instant()),
+                )
+            })
+            .unwrap_or_else(ekf),
         Call::ReadDir(p) => match fs.read_dir(p) {
             Ok(it) => {
                 let mut v: Vec<String> = it.collect();
@@ -128,7 +144,11 @@ fn exec_call_fs(fs: &dyn vfs::FileSystem, c: &Call, handle: &mut Option<Box<dyn 
     }
 }
 
-fn exec_call(root: &VfsPath, c: &Call, handle: &mut Option<Box<dyn vfs::SeekAndWrite + Send>>) -> Res {
+fn exec_call(
+    root: &VfsPath,
+    c: &Call,
+    handle: &mut Option<Box<dyn vfs::SeekAndWrite + Send>>,
+) -> Res {
     use std::io::Write;
     let at = |p: &str| root.join(&p[1..]).unwrap();
     match c {
@@ -154,7 +174,10 @@ fn exec_call(root: &VfsPath, c: &Call, handle: &mut Option<Box<dyn vfs::SeekAndW
             },
             None => Res::NoHandle,
         },
-        Call::SetModified(p) => at(p).set_modification_time(fixed_instant()).map(|_| Res::Unit).unwrap_or_else(ek),
+        Call::SetModified(p) => at(p)
+            .set_modification_time(fixed_instant())
+            .map(|_| Res::Unit)
+            .unwrap_or_else(ek),
         Call::WriteClose(b) => match handle.take() {
             Some(mut h) => {
                 // write, then close: the drop publishes the buffer under one lock acquisition (an
@@ -172,7 +195,16 @@ fn exec_call(root: &VfsPath, c: &Call, handle: &mut Option<Box<dyn vfs::SeekAndW
         Call::RemoveFile(p) => at(p).remove_file().map(|_| Res::Unit).unwrap_or_else(ek),
         Call::RemoveDir(p) => at(p).remove_dir().map(|_| Res::Unit).unwrap_or_else(ek),
         Call::Exists(p) => at(p).exists().map(Res::Bool).unwrap_or_else(ek),
-        Call::Metadata(p) => at(p).metadata().map(|m| Res::Meta(m.file_type as u8, m.len, m.modified == Some(fixed_instant()))).unwrap_or_else(ek),
+        Call::Metadata(p) => at(p)
+            .metadata()
+            .map(|m| {
+                Res::Meta(
+                    m.file_type as u8,
+                    m.len,
+                    m.modified == Some(fixed_instant()),
+                )
+            })
+            .unwrap_or_else(ek),
         Call::ReadDir(p) => match at(p).read_dir() {
             Ok(it) => {
                 let mut v: Vec<String> = it.map(|c| c.as_str().to_string()).collect();
@@ -181,7 +213,9 @@ fn exec_call(root: &VfsPath, c: &Call, handle: &mut Option<Box<dyn vfs::SeekAndW
             }
             Err(e) => ek(e),
         },
-        Call::ReadAll(p) => PathApi::read_all(&at(p)).map(Res::Bytes).unwrap_or(Res::Err(Kind::Other)),
+        Call::ReadAll(p) => PathApi::read_all(&at(p))
+            .map(Res::Bytes)
+            .unwrap_or(Res::Err(Kind::Other)),
     }
 }
 
@@ -208,7 +242,12 @@ fn fs_key(b: &Built) -> Vec<u8> {
         snapshot(&base.raw, &probes).key_bytes(&mut bytes);
         // which entries carry the instant written by SetModified
         for p in &probes {
-            let set = base.raw.join(&p[1..]).ok().and_then(|x| x.metadata().ok()).map(|m| m.modified == Some(fixed_instant()));
+            let set = base
+                .raw
+                .join(&p[1..])
+                .ok()
+                .and_then(|x| x.metadata().ok())
+                .map(|m| m.modified == Some(fixed_instant()));
             bytes.push(match set {
                 None => 0,
                 Some(false) => 1,
@@ -236,7 +275,11 @@ impl Program for LinProgram {
     fn run_thread(&self, sys: &LinSys, i: usize, rec: &Mutex<Vec<Res>>) {
         let mut handle = None;
         for c in &self.threads[i] {
-            let r = if self.trait_level { exec_call_fs(sys.fs.0.as_ref(), c, &mut handle) } else { exec_call(&sys.built.root, c, &mut handle) };
+            let r = if self.trait_level {
+                exec_call_fs(sys.fs.0.as_ref(), c, &mut handle)
+            } else {
+                exec_call(&sys.built.root, c, &mut handle)
+            };
             rec.lock().unwrap().push(r);
         }
         drop(handle);
@@ -253,7 +296,12 @@ type Outcome16 = (Vec<Vec<Res>>, Vec<u8>);
 /// All sequential executions: every merge of the threads' call sequences that respects program
 /// order, run on a fresh real MemoryFS.
 fn sequential_outcomes(p: &LinProgram) -> BTreeSet<Outcome16> {
-    fn merges(lens: &[usize], cur: &mut Vec<usize>, pos: &mut Vec<usize>, out: &mut Vec<Vec<usize>>) {
+    fn merges(
+        lens: &[usize],
+        cur: &mut Vec<usize>,
+        pos: &mut Vec<usize>,
+        out: &mut Vec<Vec<usize>>,
+    ) {
         if pos.iter().zip(lens).all(|(a, b)| a == b) {
             out.push(cur.clone());
             return;
@@ -274,13 +322,18 @@ fn sequential_outcomes(p: &LinProgram) -> BTreeSet<Outcome16> {
     let mut set = BTreeSet::new();
     for order in all {
         let sys = p.setup();
-        let mut handles: Vec<Option<Box<dyn vfs::SeekAndWrite + Send>>> = (0..lens.len()).map(|_| None).collect();
+        let mut handles: Vec<Option<Box<dyn vfs::SeekAndWrite + Send>>> =
+            (0..lens.len()).map(|_| None).collect();
         let mut recs: Vec<Vec<Res>> = vec![vec![]; lens.len()];
         let mut pos = vec![0usize; lens.len()];
         for t in order {
             let c = &p.threads[t][pos[t]];
             pos[t] += 1;
-            let r = if p.trait_level { exec_call_fs(sys.fs.0.as_ref(), c, &mut handles[t]) } else { exec_call(&sys.built.root, c, &mut handles[t]) };
+            let r = if p.trait_level {
+                exec_call_fs(sys.fs.0.as_ref(), c, &mut handles[t])
+            } else {
+                exec_call(&sys.built.root, c, &mut handles[t])
+            };
             recs[t].push(r);
             if pos[t] == lens[t] {
                 handles[t] = None; // the thread ends: its handle is dropped
@@ -316,8 +369,16 @@ fn items(paths: &[&'static str], full: bool) -> Vec<Vec<Call>> {
     }
     if full {
         // a session that publishes twice (flush, then drop)
-        v.push(vec![Call::OpenAppend("/a/f"), Call::WriteFlush(b"y"), Call::WriteClose(b"z")]);
-        v.push(vec![Call::OpenCreate("/a/f"), Call::WriteFlush(b"y"), Call::WriteClose(b"z")]);
+        v.push(vec![
+            Call::OpenAppend("/a/f"),
+            Call::WriteFlush(b"y"),
+            Call::WriteClose(b"z"),
+        ]);
+        v.push(vec![
+            Call::OpenCreate("/a/f"),
+            Call::WriteFlush(b"y"),
+            Call::WriteClose(b"z"),
+        ]);
     }
     if !full {
         v.push(vec![Call::ReadDir("/a")]);
@@ -330,7 +391,10 @@ fn inits16() -> Vec<Vec<(String, Node)>> {
     vec![
         vec![],
         vec![("/a".into(), Node::Dir)],
-        vec![("/a".into(), Node::Dir), ("/a/f".into(), Node::File(b"o".to_vec()))],
+        vec![
+            ("/a".into(), Node::Dir),
+            ("/a/f".into(), Node::File(b"o".to_vec())),
+        ],
         vec![("/a".into(), Node::File(b"o".to_vec()))],
     ]
 }
@@ -362,20 +426,44 @@ pub fn run_c16(ctx: &Ctx) -> i32 {
     let full = items(&["/a", "/a/f", "/b"], true);
     for init in inits16() {
         for ms in multisets(full.len(), 2) {
-            programs.push(("2 threads x 1 call/session".into(), LinProgram { init: init.clone(), threads: ms.iter().map(|i| full[*i].clone()).collect(), trait_level: false }));
-            programs.push(("FileSystem-trait level: 2 threads x 1 call/session".into(), LinProgram { init: init.clone(), threads: ms.iter().map(|i| full[*i].clone()).collect(), trait_level: true }));
+            programs.push((
+                "2 threads x 1 call/session".into(),
+                LinProgram {
+                    init: init.clone(),
+                    threads: ms.iter().map(|i| full[*i].clone()).collect(),
+                    trait_level: false,
+                },
+            ));
+            programs.push((
+                "FileSystem-trait level: 2 threads x 1 call/session".into(),
+                LinProgram {
+                    init: init.clone(),
+                    threads: ms.iter().map(|i| full[*i].clone()).collect(),
+                    trait_level: true,
+                },
+            ));
         }
     }
     if !thorough {
         // class D (quick): one thread makes two mutating calls / sessions, the other one, on {/a, /a/f}
-        let muts: Vec<Vec<Call>> = items(&["/a", "/a/f"], false).into_iter().filter(|i| !matches!(i[0], Call::ReadDir(_) | Call::Exists(_))).collect();
+        let muts: Vec<Vec<Call>> = items(&["/a", "/a/f"], false)
+            .into_iter()
+            .filter(|i| !matches!(i[0], Call::ReadDir(_) | Call::Exists(_)))
+            .collect();
         for init in inits16() {
             for a in &muts {
                 for b in &muts {
                     let mut two = a.clone();
                     two.extend(b.iter().cloned());
                     for c in &muts {
-                        programs.push(("2 threads x (2,1) mutating calls/sessions on {/a,/a/f}".into(), LinProgram { init: init.clone(), threads: vec![two.clone(), c.clone()], trait_level: false }));
+                        programs.push((
+                            "2 threads x (2,1) mutating calls/sessions on {/a,/a/f}".into(),
+                            LinProgram {
+                                init: init.clone(),
+                                threads: vec![two.clone(), c.clone()],
+                                trait_level: false,
+                            },
+                        ));
                     }
                 }
             }
@@ -385,7 +473,14 @@ pub fn run_c16(ctx: &Ctx) -> i32 {
         // class B: 3 threads x 1 call-or-session, full alphabet
         for init in inits16() {
             for ms in multisets(full.len(), 3) {
-                programs.push(("3 threads x 1 call/session".into(), LinProgram { init: init.clone(), threads: ms.iter().map(|i| full[*i].clone()).collect(), trait_level: false }));
+                programs.push((
+                    "3 threads x 1 call/session".into(),
+                    LinProgram {
+                        init: init.clone(),
+                        threads: ms.iter().map(|i| full[*i].clone()).collect(),
+                        trait_level: false,
+                    },
+                ));
             }
         }
         // class C: 2 threads x 2 calls/sessions over the reduced alphabet (mutators on {/a, /a/f} + 2 observers)
@@ -400,13 +495,34 @@ pub fn run_c16(ctx: &Ctx) -> i32 {
         }
         for init in inits16() {
             for ms in multisets(seqs.len(), 2) {
-                programs.push(("2 threads x 2 calls/sessions (reduced alphabet)".into(), LinProgram { init: init.clone(), threads: ms.iter().map(|i| seqs[*i].clone()).collect(), trait_level: false }));
+                programs.push((
+                    "2 threads x 2 calls/sessions (reduced alphabet)".into(),
+                    LinProgram {
+                        init: init.clone(),
+                        threads: ms.iter().map(|i| seqs[*i].clone()).collect(),
+                        trait_level: false,
+                    },
+                ));
             }
             // 2 threads: one with 2 items, one with 1 item from the full alphabet
             for s in &seqs {
                 for f in &full {
-                    programs.push(("FileSystem-trait level: 2 threads x (2,1) calls/sessions".into(), LinProgram { init: init.clone(), threads: vec![s.clone(), f.clone()], trait_level: true }));
-                    programs.push(("2 threads x (2,1) calls/sessions".into(), LinProgram { init: init.clone(), threads: vec![s.clone(), f.clone()], trait_level: false }));
+                    programs.push((
+                        "FileSystem-trait level: 2 threads x (2,1) calls/sessions".into(),
+                        LinProgram {
+                            init: init.clone(),
+                            threads: vec![s.clone(), f.clone()],
+                            trait_level: true,
+                        },
+                    ));
+                    programs.push((
+                        "2 threads x (2,1) calls/sessions".into(),
+                        LinProgram {
+                            init: init.clone(),
+                            threads: vec![s.clone(), f.clone()],
+                            trait_level: false,
+                        },
+                    ));
                 }
             }
         }
@@ -463,7 +579,9 @@ pub fn run_c16(ctx: &Ctx) -> i32 {
     let mut complete = true;
     let mut samples = vec![];
     for (i, (class, st, nseq, nobs, v, sample)) in results.iter().enumerate() {
-        let e = per_class.entry(class.clone()).or_insert((0, 0, 0, 0, 0, true));
+        let e = per_class
+            .entry(class.clone())
+            .or_insert((0, 0, 0, 0, 0, true));
         e.0 += 1;
         e.1 += st.executions;
         e.2 += st.distinct_states;
@@ -534,7 +652,13 @@ impl Program for MkdirProgram {
     type Sys = LinSys;
     type Rec = bool;
     fn describe(&self) -> String {
-        format!("{} init {:?} after {:?}: create_dir_all x {:?}", self.cfg.label(), self.init, self.pre.iter().map(|o| o.show()).collect::<Vec<_>>(), self.paths)
+        format!(
+            "{} init {:?} after {:?}: create_dir_all x {:?}",
+            self.cfg.label(),
+            self.init,
+            self.pre.iter().map(|o| o.show()).collect::<Vec<_>>(),
+            self.paths
+        )
     }
     fn threads(&self) -> usize {
         self.paths.len()
@@ -544,7 +668,10 @@ impl Program for MkdirProgram {
         for op in &self.pre {
             let _ = crate::ops::apply(&built.root, op);
         }
-        let fs = built.mem_fs.clone().unwrap_or_else(|| SharedFs(std::sync::Arc::new(vfs::MemoryFS::new())));
+        let fs = built
+            .mem_fs
+            .clone()
+            .unwrap_or_else(|| SharedFs(std::sync::Arc::new(vfs::MemoryFS::new())));
         LinSys { built, fs }
     }
     fn run_thread(&self, sys: &LinSys, i: usize, rec: &Mutex<Vec<bool>>) {
@@ -580,9 +707,27 @@ pub fn run_c17(ctx: &Ctx) -> i32 {
         (Cfg::alt(Cfg::Mem, "/Z"), vec![], vec![], vec![2], None),
         (ov.clone(), vec![], vec![], vec![2], None),
         (ov.clone(), lower_prefix.clone(), vec![], vec![2], None),
-        (ov.clone(), lower_prefix.clone(), removed_all.clone(), vec![2], None),
-        (ov.clone(), lower_prefix.clone(), removed_leaf.clone(), vec![2], None),
-        (Cfg::Mem, plain_prefix.clone(), removed_all.clone(), vec![2], None),
+        (
+            ov.clone(),
+            lower_prefix.clone(),
+            removed_all.clone(),
+            vec![2],
+            None,
+        ),
+        (
+            ov.clone(),
+            lower_prefix.clone(),
+            removed_leaf.clone(),
+            vec![2],
+            None,
+        ),
+        (
+            Cfg::Mem,
+            plain_prefix.clone(),
+            removed_all.clone(),
+            vec![2],
+            None,
+        ),
         (Cfg::Phys, vec![], vec![], vec![2, 3], None),
     ];
     if thorough {
@@ -590,11 +735,29 @@ pub fn run_c17(ctx: &Ctx) -> i32 {
         plans.push((Cfg::alt(Cfg::Mem, "/Z"), vec![], vec![], vec![3], None));
         plans.push((ov.clone(), vec![], vec![], vec![3], Some(2)));
         plans.push((ov.clone(), lower_prefix.clone(), vec![], vec![3], Some(2)));
-        plans.push((ov.clone(), lower_prefix.clone(), removed_all.clone(), vec![3], Some(2)));
-        plans.push((Cfg::Ov(vec![Cfg::Mem, Cfg::Mem, Cfg::Mem]), vec![(2, vec![("/a/b".to_string(), Node::Dir)])], removed_all.clone(), vec![2], None));
+        plans.push((
+            ov.clone(),
+            lower_prefix.clone(),
+            removed_all.clone(),
+            vec![3],
+            Some(2),
+        ));
+        plans.push((
+            Cfg::Ov(vec![Cfg::Mem, Cfg::Mem, Cfg::Mem]),
+            vec![(2, vec![("/a/b".to_string(), Node::Dir)])],
+            removed_all.clone(),
+            vec![2],
+            None,
+        ));
         plans.push((Cfg::alt(ov.clone(), "/Z"), vec![], vec![], vec![2], None));
         plans.push((Cfg::Phys, vec![], vec![], vec![4], Some(3)));
-        plans.push((Cfg::Phys, plain_prefix.clone(), removed_all.clone(), vec![2], None));
+        plans.push((
+            Cfg::Phys,
+            plain_prefix.clone(),
+            removed_all.clone(),
+            vec![2],
+            None,
+        ));
         plans.push((Cfg::alt(Cfg::Phys, "/Z"), vec![], vec![], vec![2, 3], None));
     }
     let mut programs: Vec<(String, MkdirProgram, Option<usize>)> = vec![];
@@ -602,17 +765,45 @@ pub fn run_c17(ctx: &Ctx) -> i32 {
         for k in ks {
             // quick tier: overlays (long call chains per create_dir) use the 4 paths that share prefixes of every length
             let small = !thorough && cfg.has_overlay();
-            let pool: Vec<&'static str> = if small { vec!["a", "a/b", "a/b/c", "a/x"] } else { pool.clone() };
+            let pool: Vec<&'static str> = if small {
+                vec!["a", "a/b", "a/b/c", "a/x"]
+            } else {
+                pool.clone()
+            };
             for ms in multisets(pool.len(), *k) {
                 let label = format!(
                     "{}{}{} x {} threads{}",
                     cfg.label(),
-                    if init.is_empty() { "" } else if cfg.has_overlay() { " (shared prefix only in the lower layer)" } else { " (shared prefix present)" },
-                    if pre.is_empty() { String::new() } else { format!(" after {}", pre.iter().map(|o| o.show()).collect::<Vec<_>>().join(", ")) },
+                    if init.is_empty() {
+                        ""
+                    } else if cfg.has_overlay() {
+                        " (shared prefix only in the lower layer)"
+                    } else {
+                        " (shared prefix present)"
+                    },
+                    if pre.is_empty() {
+                        String::new()
+                    } else {
+                        format!(
+                            " after {}",
+                            pre.iter().map(|o| o.show()).collect::<Vec<_>>().join(", ")
+                        )
+                    },
                     k,
-                    bound.map(|b| format!(" (preemption bound {})", b)).unwrap_or_default()
+                    bound
+                        .map(|b| format!(" (preemption bound {})", b))
+                        .unwrap_or_default()
                 );
-                programs.push((label, MkdirProgram { cfg: cfg.clone(), init: init.clone(), pre: pre.clone(), paths: ms.iter().map(|i| pool[*i]).collect() }, *bound));
+                programs.push((
+                    label,
+                    MkdirProgram {
+                        cfg: cfg.clone(),
+                        init: init.clone(),
+                        pre: pre.clone(),
+                        paths: ms.iter().map(|i| pool[*i]).collect(),
+                    },
+                    *bound,
+                ));
             }
         }
     }
